@@ -1,6 +1,7 @@
 import RjModel.Model.Parse
 import RjModel.Generated.Constants
 import RjModel.Model.Chunks
+import RjModel.Model.Frame
 import RjModel.Model.ParseSettings
 import RjModel.Generated.Defaults
 open Rj
@@ -9,6 +10,19 @@ def chunkCfg? : Option ChunkCfg := do
   let f ← Generated.firstChunk; let g ← Generated.chunkGrowth
   let m ← Generated.maxChunk; let s ← Generated.smallBuf
   pure ⟨f, g, m, s⟩
+
+def linkCfg? : Option LinkCfg := do
+  let a ← Generated.sendNonceStep; let b ← Generated.recvNonceStep
+  let c ← Generated.bossSendParity; let d ← Generated.bossRecvParity
+  let e ← Generated.doerSendParity; let f ← Generated.doerRecvParity
+  pure ⟨a, b, c, d, e, f⟩
+
+def parseItem (t : String) : Option Item :=
+  match t.toList with
+  | ['x'] => some .junk
+  | 'f' :: 'b' :: r => (String.ofList r).toNat?.map (Item.frame false)
+  | 'f' :: 'd' :: r => (String.ofList r).toNat?.map (Item.frame true)
+  | _ => none
 
 def renderLens (l : List (Nat × Bool)) : String :=
   "[" ++ joinWith ";" (l.map fun (n, m) => s!"{n},{if m then 1 else 0}") ++ "]"
@@ -32,6 +46,11 @@ def handle (line : String) : String :=
       | some wfs => "impl=" ++ String.ofList (ps.map fun p => if applyFilters wfs p.toList.toArray then '1' else '0')
       | none => "bad-wrap"
     | none => "bad-op"
+  | "frames" :: toDoer :: items =>
+    match linkCfg?, items.mapM parseItem with
+    | some c, some its =>
+      "[" ++ joinWith "," ((recvItems c (toDoer == "1") its 0).map toString) ++ "]"
+    | _, _ => "bad-op"
   | ["rpd", s] =>
     match unx s with
     | some str => renderPathDesc (parsePathDesc str)
